@@ -268,6 +268,7 @@ def run_check(pid, tier, runs, budget_s, workers):
     reported = []
     known_lines = []
     shrink_stats = []
+    unconfirmed_hangs = []
     seen_sigs = set()
     for rec in agg["violations"]:
         res = rec["res"]
@@ -292,6 +293,12 @@ def run_check(pid, tier, runs, budget_s, workers):
                              "ops_before": len(trace.get("ops", ())), "ops_after": len(best.get("ops", ())),
                              "sched_before": len(trace.get("schedule", ()) or ()),
                              "sched_after": len(best.get("schedule", ()) or ())})
+        if sig == ("liveness", "operation-did-not-terminate") and conf1.get("status") == OK and conf2.get("status") == OK:
+            # the CPU-time alarm fired on a run that terminates (twice, in fresh processes): on an overcommitted
+            # (virtual) machine the time charged to a process can be many times what it used.  A real hang is a
+            # property of the trace and hangs again on replay; this one is counted, not reported.
+            unconfirmed_hangs.append({"run_index": rec["i"], "ops": len(trace.get("ops", ()))})
+            continue
         if conf1.get("status") != VIOLATION or core.signature(conf1) != sig:
             problems.append(f"violation {sig} at index {rec['i']} did not reproduce on replay: "
                             f"{conf1.get('status')} {conf1.get('detail')}")
@@ -357,6 +364,7 @@ def run_check(pid, tier, runs, budget_s, workers):
             "hashseeds": list(HASHSEEDS),
             "determinism_recheck": det,
             "shrink": shrink_stats,
+            "unconfirmed_hang_alarms": unconfirmed_hangs,
             "known_findings_hit": known_lines,
             "real_vs_stub": getattr(prop, "REAL_VS_STUB", None),
             "engine": getattr(prop, "ENGINE", None),
